@@ -20,9 +20,9 @@ var (
 	cfgTimes = drv.Cfg{Times: true, Rollover: Roll2, Ver: 2}
 )
 
-func withVer(c drv.Cfg, v int) drv.Cfg     { c.Ver = v; return c }
-func withRoll(c drv.Cfg, r int64) drv.Cfg  { c.Rollover = r; return c }
-func withKeep(c drv.Cfg, k bool) drv.Cfg   { c.Keep = k; return c }
+func withVer(c drv.Cfg, v int) drv.Cfg    { c.Ver = v; return c }
+func withRoll(c drv.Cfg, r int64) drv.Cfg { c.Rollover = r; return c }
+func withKeep(c drv.Cfg, k bool) drv.Cfg  { c.Keep = k; return c }
 func allIdx(v int) []drv.Cfg {
 	return []drv.Cfg{withVer(cfgBoth, v), withVer(cfgNone, v), withVer(cfgKeys, v), withVer(cfgTimes, v)}
 }
